@@ -227,12 +227,20 @@ class SpecBuilder:
                 i = self.sum_over([i])
         else:
             nalt = 1 if rng.random() < 0.55 else rng.choice([2, 2, 3])
-            part = self.partition(vs)
+            if o.get("structured"):
+                # one fixed decomposition per variable set (a vtree): structured-decomposable circuits
+                if not hasattr(self, "parts"):
+                    self.parts = {}
+                if key not in self.parts:
+                    self.parts[key] = self.partition(vs)
+                part = self.parts[key]
+            else:
+                part = self.partition(vs)
             alts = []
             for a in range(nalt):
                 if a > 0:
                     r = rng.random()
-                    if r < o.get("p_new_partition", 0.25):
+                    if r < (0.0 if o.get("structured") else o.get("p_new_partition", 0.25)):
                         part = self.partition(vs)  # a different decomposition: not structured
                     elif r < 0.6:
                         part = list(part)
@@ -263,7 +271,7 @@ def gen_spec(rng: random.Random, **kw) -> dict:
     o.update(kw)
     o["states"] = dict(o.get("states", {}))
     o["continuous"] = set()
-    o["varkind"] = {}
+    o["varkind"] = dict(o.get("varkind", {}))
     nv = o.get("nv") or rng.choice([1, 2, 2, 3, 3, 4, 5])
     pool = VAR_POOL_WIDE if rng.random() < 0.5 else VAR_POOL_SMALL
     vs = o.get("vars") or rng.sample(pool, min(nv, len(pool)))
